@@ -131,6 +131,15 @@ Fixpoint switch_result (val : enc) (cases : list (enc * enc)) (defval : option e
                    else switch_result val r (if str_eqb (lower (codes (strip_i k))) s_default then Some v else defval)
   end.
 
+(* ... and with a final item that has no "=": that item is the default, whatever an earlier "#default = v" said
+   (MediaWiki's rule; fix 4429042) *)
+Definition bare_ok (a : enc) : bool := plain a && forallb (fun i => negb (is_code 61 i)) a.
+Fixpoint switch_trailing_result (val : enc) (cases : list (enc * enc)) (last : enc) : enc :=
+  match cases with
+  | [] => strip_i last
+  | (k, v) :: r => if mw_equal (codes (strip_i k)) (codes val) then strip_i v else switch_trailing_result val r last
+  end.
+
 (** Calls inside arguments (C04: "arguments are expanded in the caller's frame").  An argument of the outer call is text
     and flat calls; a named argument has a plain name.  The value bound is the argument with every call in it replaced
     by that call's result - computed where the argument stands, not inside the outer template's body. *)
